@@ -85,8 +85,10 @@ func simPlans(t *testing.T, thorough bool) []simPlan {
 	}
 	gens := func(expected string) string {
 		return fmt.Sprintf(`{"type": "generateUpkeeps", "eventBlockNumber": %d, "comment": "conditionals", "count": 3, "startID": 200, "eligibilityFunc": "40x - 30", "offsetFunc": "2x + 1", "upkeepType": "conditional", "expected": "%s"},
- {"type": "generateUpkeeps", "eventBlockNumber": %d, "comment": "log upkeep", "count": 1, "startID": 300, "eligibilityFunc": "always", "upkeepType": "logTrigger", "logTriggeredBy": "test_trigger_event", "expected": "%s"},
- {"type": "logTrigger", "eventBlockNumber": %d, "comment": "trigger", "triggerValue": "test_trigger_event"}`, g, expected, g, expected, g+10)
+ {"type": "generateUpkeeps", "eventBlockNumber": %d, "comment": "log upkeeps", "count": 3, "startID": 300, "eligibilityFunc": "always", "upkeepType": "logTrigger", "logTriggeredBy": "test_trigger_event", "expected": "%s"},
+ {"type": "logTrigger", "eventBlockNumber": %d, "comment": "trigger", "triggerValue": "test_trigger_event"},
+ {"type": "logTrigger", "eventBlockNumber": %d, "comment": "the same log again in the next block (inside one poll interval of the log flow)", "triggerValue": "test_trigger_event"},
+ {"type": "logTrigger", "eventBlockNumber": %d, "comment": "and the block after", "triggerValue": "test_trigger_event"}`, g, expected, g, expected, g+10, g+11, g+12)
 	}
 	plans := []simPlan{
 		{Name: "performs-expected", JSON: head(36, 14, "400ms") + fmt.Sprintf(ocrConfigEvent, g+1) + ",\n " + gens("all") + "]}", F: 1},
